@@ -1,5 +1,14 @@
 #!/bin/bash
-# offline build of the Lean project (library, property modules, drivers)
-set -e
-cd "$(dirname "$0")/lean"
-lake build 2>&1 | tail -5
+# offline build of the Lean project: every property's theorem modules and its compiled driver.
+# A property whose modules do not build does not stop the others (its own check will report it).
+cd "$(dirname "$0")/lean" || exit 2
+rc=0
+for f in PeptVerif/Props/C*.lean; do
+  m="PeptVerif.Props.$(basename "$f" .lean)"
+  lake build "$m" 2>&1 | grep -E "error|Build completed" | tail -3 || true
+done
+for i in $(seq -w 1 20); do
+  lake build "drv_c$i" 2>&1 | grep -E "error|Build completed" | tail -2 || true
+done
+ls .lake/build/bin/ | grep -c '^drv_c[0-9][0-9]$'
+exit 0
